@@ -21,7 +21,8 @@ ASSUMPTIONS = c01.ASSUMPTIONS + [
     "exhausted); blocks have at most 2 child statements",
     "context managers are arbitrary objects: type(m).__enter__ / __exit__ lookups and calls are primitives",
 ]
-NOT_DECIDED = ["nesting depth: covered by the induction argument (children opaque)",
+NOT_DECIDED = ["beyond the templates: random native differential against CPython only (bounded); it calls plain functions only, because calling an arbitrary object makes the interpreter probe it (asyncio.iscoroutinefunction, comparison with time.sleep) which only an instrumented __getattr__/__eq__ observes; UnboundLocalError and NameError are not distinguished there (pyscript closure cells raise the base class)",
+               "nesting depth: covered by the induction argument (children opaque)",
                "except clauses and BaseException subclasses (deliberate deviation for CancelledError)"]
 SHAPE_BOUNDS = {"loop iterations": "<= 2", "statements per block": "<= 2", "except handlers": "<= 2", "with items": "<= 2"}
 LEVEL_TEXT = ("Proof per statement class and shape (shape-bounded, all values and all completions of the child "
@@ -115,10 +116,21 @@ def b_adequacy(seed):
             "cases": tried, "failures": failures}
 
 
+
+
+def b_random(seed_base, programs, what="stmt"):
+    def run(seed):
+        from replay.native import run_native
+        return run_native("c01_random_bounded", {"seed": seed_base + seed, "programs": programs, "what": what, "max_failures": 5}, timeout=1500)
+    return run
+
 def harnesses():
     hs = []
     for name, src in STMT.items():
         hs.append(Harness(name, h_template(name, src), units=[(E_PY, "AstEval.aeval")], replay=replay_template, max_paths=8000,
                           tier="thorough" if name == "With.two" else "quick"))  # With.two needs > 100 s of exploration
     hs.append(Harness("adequacy.native-differential", b_adequacy, units=[(E_PY, "AstEval.aeval")], kind="bounded"))
+    hs.append(Harness("random.native-differential", b_random(5000, 400), units=[(E_PY, "AstEval.aeval")], kind="bounded"))
+    for k in range(1, 9):
+        hs.append(Harness(f"random.native-differential[thorough {k}/8]", b_random(5000 + 100 * k, 1500), units=[(E_PY, "AstEval.aeval")], kind="bounded", tier="thorough"))
     return hs
